@@ -75,6 +75,30 @@ def grep_gate() -> List[str]:
     return bad
 
 
+PER_FILE_TIMEOUT = 900
+MEM_LIMIT_BYTES = 20 * 1024 ** 3
+
+
+def _limit_memory() -> None:
+    import resource
+    resource.setrlimit(resource.RLIMIT_AS, (MEM_LIMIT_BYTES, MEM_LIMIT_BYTES))
+
+
+def import_targets(mod: Any) -> List[str]:
+    """.vo targets a property needs: its Props file and whatever its suites import."""
+    targets = [mod.PROPS_FILE + "o"]
+    try:
+        for su in mod.suites("replay", 0):
+            for imp in su.imports:
+                m = re.match(r"\s*From RG Require (?:Import|Export) (.*?)\.\s*$", imp.strip())
+                if m:
+                    for name in m.group(1).split():
+                        targets.append(name.replace(".", "/") + ".vo")
+    except Exception:
+        pass
+    return sorted(set(targets))
+
+
 class Lock:
     def __enter__(self):
         os.makedirs(COQ, exist_ok=True)
@@ -101,9 +125,12 @@ def build(targets: Optional[List[str]] = None, timeout: int = 3000) -> Dict[str,
             open(pj, "w").write(proj)
             subprocess.run(["coq_makefile", "-f", "_CoqProject", "-o", "Makefile"], cwd=COQ, check=True,
                            capture_output=True)
-        cmd = ["make", "-j16", "-k"] + (targets or [])
+        # every coqc runs under its own time and memory limit so that one runaway file cannot
+        # block the other properties' checks
+        cmd = ["make", "-j16", "-k", f"COQC=timeout {PER_FILE_TIMEOUT} coqc"] + (targets or [])
         try:
-            p = subprocess.run(["timeout", str(timeout)] + cmd, cwd=COQ, capture_output=True, text=True)
+            p = subprocess.run(["timeout", str(timeout)] + cmd, cwd=COQ, capture_output=True, text=True,
+                               preexec_fn=_limit_memory)
             out = p.stdout + p.stderr
             rc = p.returncode
         except Exception as e:  # pragma: no cover
@@ -223,8 +250,8 @@ def check(pid: str, tier: str, seed: int) -> int:
     violations: List[Dict[str, Any]] = []   # concrete failing inputs (unlisted)
     known_lines: List[str] = []
 
-    # 1+2. translate, build, re-check proofs
-    b = build()
+    # 1+2. translate, build (only this property's dependency closure), re-check proofs
+    b = build(import_targets(mod))
     gate = grep_gate()
     for g in gate:
         problems.append({"kind": "forbidden-construct", "what": g})
